@@ -56,9 +56,17 @@ HARNESSES: Dict[str, dict] = {
     # live view of the transport — whatever matches when it is iterated is delivered through it, nothing is left for a later one
     "H9-subscription-opened-before-channels-exist": {
         "pre": [("d.1", 0)], "pubs": [[("c.1", 0), ("c.1", 1)], [("c.2", 0), ("c.1", 0)]], "subs": [], "preopen": ["c.*", "c.2"], "drain": ["*"]},
+    # what a message carries is up to the publisher: identity in the data, only in the context, only in the metadata — or nothing at
+    # all (data None, empty context, no metadata): a message is a message, however empty (bare ones are counted, they have no identity)
+    "H11-message-shapes": {
+        "pre": [("c.1", 0, "bare")], "pubs": [[("c.1", 0, "data"), ("c.1", 1, "bare"), ("c.1", 2, "ctx")], [("c.1", 0, "meta"), ("c.2", 1, "bare-none")]],
+        "subs": ["c.*"], "drain": ["*"]},
     "H10-preopened-exact-and-concurrent-subscriber": {
         "pre": [], "pubs": [[("c.1", 0)], [("c.1", 0)]], "subs": ["c.?"], "preopen": ["c.1"], "drain": ["*"]},
 }
+
+
+BARE = ("<bare>", "<bare>", -1)
 
 
 def run_harness(name: str, prefix: List[int]) -> sched.Execution:
@@ -69,18 +77,40 @@ def run_harness(name: str, prefix: List[int]) -> sched.Execution:
     try:
         t = in_memory.InMemorySemantivaTransport()
         published: List[Tuple[str, str, int]] = []
-        for ch, seq in h["pre"]:
-            t.publish(ch, data=(ch, "pre", seq), context=None)
-            published.append((ch, "pre", seq))
+
+        def send(ch, who, seq, shape="data"):
+            ident = (ch, who, seq)
+            if shape == "data":
+                t.publish(ch, data=ident, context=None)
+            elif shape == "ctx":
+                t.publish(ch, data=None, context={"id": ident})
+            elif shape == "meta":
+                t.publish(ch, data=None, context=None, metadata={"id": ident})
+            elif shape == "bare":
+                t.publish(ch, data=None, context={})
+            else:
+                t.publish(ch, data=None, context=None)
+            return ident if not shape.startswith("bare") else BARE
+
+        def ident_of(m):
+            if m.data is not None:
+                return m.data
+            for part in (m.context, m.metadata):
+                if isinstance(part, dict) and "id" in part:
+                    return part["id"]
+            return BARE
+
+        for item in h["pre"]:
+            published.append(send(item[0], "pre", item[1], *item[2:]))
         consumed: Dict[str, List[Any]] = collections.OrderedDict()
         preopened = [(pat, t.subscribe(pat)) for pat in h.get("preopen", [])]
         tid = 0
         for pi, script in enumerate(h["pubs"]):
             def pub(script=script, pi=pi):
-                for ch, seq in script:
-                    t.publish(ch, data=(ch, f"P{pi}", seq), context=None)
-            for ch, seq in script:
-                published.append((ch, f"P{pi}", seq))
+                for item in script:
+                    send(item[0], f"P{pi}", item[1], *item[2:])
+            for item in script:
+                published.append((item[0], f"P{pi}", item[1]) if not (len(item) > 2 and item[2].startswith("bare")) else BARE)
             s.spawn(tid, pub)
             tid += 1
         for si, pat in enumerate(h["subs"]):
@@ -89,16 +119,16 @@ def run_harness(name: str, prefix: List[int]) -> sched.Execution:
 
             def sub(pat=pat, got=got):
                 for m in t.subscribe(pat):
-                    got.append(m.data)
+                    got.append(ident_of(m))
             s.spawn(tid, sub)
             tid += 1
         x = s.run()
         _CUR[0] = None
         if not x.deadlock:
             for oi, (pat, subscription) in enumerate(preopened):
-                consumed[f"O{oi}:{pat}"] = [m.data for m in subscription]
+                consumed[f"O{oi}:{pat}"] = [ident_of(m) for m in subscription]
             for di, pat in enumerate(h["drain"]):
-                consumed[f"D{di}:{pat}"] = [m.data for m in t.subscribe(pat)]
+                consumed[f"D{di}:{pat}"] = [ident_of(m) for m in t.subscribe(pat)]
         x.obs = {"published": published, "consumed": {k: list(v) for k, v in consumed.items()},
                  "errors": {k: repr(v) for k, v in x.errors.items()}}
         return x
@@ -120,6 +150,8 @@ def judge(x: sched.Execution) -> Optional[Tuple[str, str]]:
         for m in msgs:
             m = tuple(m)
             got[m] += 1
+            if m == BARE:
+                continue
             ch, who, seq = m
             if not fnmatch.fnmatch(ch, pat):
                 return ("pattern-mismatch", f"consumer {consumer} received a message of channel {ch}")
@@ -131,6 +163,8 @@ def judge(x: sched.Execution) -> Optional[Tuple[str, str]]:
     for consumer, msgs in o["consumed"].items():
         if consumer.startswith("D"):
             for m in msgs:
+                if tuple(m) == BARE:
+                    continue
                 hit = [p for p in opened if fnmatch.fnmatch(tuple(m)[0], p)]
                 if hit:
                     return ("subscription-misses-matching-message",
@@ -177,13 +211,13 @@ def check(tier: str, seed: int) -> Result:
     if tier == "quick":
         plan = [("H1-two-publishers-new-channel", 2), ("H2-publishers-and-subscriber", 1), ("H3-routing-two-channels", 1),
                 ("H4-existing-channel", 1), ("H6-two-subscribers", 1), ("H7-one-message-each-two-new-channels", 1),
-                ("H8-one-publisher-one-subscriber", 2), ("H9-subscription-opened-before-channels-exist", 1), ("H10-preopened-exact-and-concurrent-subscriber", 1)]
+                ("H8-one-publisher-one-subscriber", 2), ("H9-subscription-opened-before-channels-exist", 1), ("H10-preopened-exact-and-concurrent-subscriber", 1), ("H11-message-shapes", 1)]
         cap = 400000
     else:
         plan = [("H1-two-publishers-new-channel", 3), ("H2-publishers-and-subscriber", 3), ("H3-routing-two-channels", 2),
                 ("H4-existing-channel", 3), ("H5-three-publishers", 2), ("H6-two-subscribers", 2),
                 ("H7-one-message-each-two-new-channels", 3), ("H8-one-publisher-one-subscriber", 3),
-                ("H9-subscription-opened-before-channels-exist", 2), ("H10-preopened-exact-and-concurrent-subscriber", 3)]
+                ("H9-subscription-opened-before-channels-exist", 2), ("H10-preopened-exact-and-concurrent-subscriber", 3), ("H11-message-shapes", 2)]
         cap = 3000000
     jobs = []
     per: Dict[str, dict] = {}
